@@ -17,7 +17,7 @@
      snapshot = (pin min_angle max_angle min_pulse max_pulse angle pulse)   pin a pynum
      events   = ((0 angle pulse) ...)                     one per completed write/write_us
 
-   CASE    (1 mina maxa minp maxp)    the two bound checks of Servo.__init__ on floats that may be IEEE
+   CASE    (1 mina maxa minp maxp)    the three bound checks of Servo.__init__ on floats that may be IEEE
                                       specials; xfloat = (0 (num den)) finite | (1) NaN | (2) +inf | (3) -inf
    OUTPUT  (0) a ValueError is raised | (1) the bounds are accepted
    An undecodable case answers (2). *)
